@@ -15,7 +15,7 @@
                                                                               [gauss_bridge], shifted centre [gauss_bridge_shift]
      (f) final form of (B1): J0 = sqrt(PI/p) -> integral / sqrt(PI/p) = E f   [bridge_B1_modulo_gaussian_integral]
    What stays outside: the single number  integral of e^{-p x^2} = sqrt(PI/p).
-   Axioms: those of the classical real numbers of the standard library; none declared here. *)
+   Assumptions reported by Print Assumptions: the classical real numbers of the standard library only. *)
 From Coq Require Import Reals Lra Lia List.
 From Coquelicot Require Import Coquelicot.
 From GB Require Import Base.Field Gauss.Moment1D Gauss.Bridge Gauss.DerivBridge.
